@@ -1,5 +1,213 @@
-"""Sanitizer flavours (ThreadSanitizer, AddressSanitizer, Miri) - built on first thorough use."""
+"""Sanitizer flavours (ThreadSanitizer, AddressSanitizer, Miri) - built on first thorough use, cached in
+/verif/target/<flavour>.  A flavour that cannot be built, or a run that the tool itself aborts, is
+*inconclusive* for that part (reported in the evidence), never a violation; a sanitizer report in repo
+code is a violation."""
+import os
+import re
+import subprocess
+import time
+
+from . import common
+
+TARGET = "x86_64-unknown-linux-gnu"
+FLAVOURS = {
+    # name: (RUSTFLAGS, extra cargo args)
+    "tsan": ("--cfg fontc_verif -Zsanitizer=thread -Cforce-frame-pointers=yes", ["-Zbuild-std", "--target", TARGET]),
+    "asan": ("--cfg fontc_verif -Zsanitizer=address -Cforce-frame-pointers=yes", ["--target", TARGET]),
+}
+
+
+def build(flavour, bins=("fontc",), timeout=3600):
+    """Build with the nightly toolchain into /verif/target/<flavour>; returns {bin: path} or raises Inconclusive."""
+    common.ensure_lockfile()
+    flags, extra = FLAVOURS[flavour]
+    tdir = os.path.join(common.TARGET, flavour)
+    cmd = ["cargo", "+nightly", "build", "--offline", "--release"] + extra
+    for b in bins:
+        if b == "fontc":
+            cmd += ["-p", "fontc", "--bin", "fontc"]
+    hb = [b for b in bins if b != "fontc"]
+    if hb:
+        cmd += ["-p", "vharness"] + sum((["--bin", b] for b in hb), [])
+    env = common.base_env()
+    env["RUSTFLAGS"] = flags
+    env["CARGO_TARGET_DIR"] = tdir
+    t0 = time.time()
+    p = subprocess.run(cmd, cwd=common.HARNESS, env=env, stdout=subprocess.PIPE, stderr=subprocess.STDOUT, text=True, timeout=timeout)
+    if p.returncode != 0:
+        common.log(p.stdout[-3000:])
+        raise common.Inconclusive(f"{flavour} build failed")
+    if time.time() - t0 > 5:
+        common.log(f"[build {flavour}] {time.time()-t0:.1f}s")
+    d = os.path.join(tdir, TARGET, "release")
+    return {b: os.path.join(d, b) for b in bins}
+
+
+REPORT_START = re.compile(r"^(WARNING: ThreadSanitizer: |==\d+==ERROR: AddressSanitizer: |==\d+==ERROR: LeakSanitizer: )(.*)$")
+FRAME = re.compile(r"^\s+#\d+ (?:0x[0-9a-f]+ in )?(\S.*?)(?: (/\S+?):(\d+))?(?::\d+)?(?: \(.*\))?$")
+
+
+def parse_reports(text):
+    """Split a sanitizer log into reports; each report is keyed by kind + first frame inside /repo."""
+    reports = []
+    cur = None
+    for line in text.splitlines():
+        m = REPORT_START.match(line)
+        if m:
+            cur = {"kind": m.group(2).split(" (")[0].strip(), "frames": [], "head": line.strip()}
+            reports.append(cur)
+            continue
+        if cur is None:
+            continue
+        f = FRAME.match(line)
+        if f:
+            cur["frames"].append((f.group(1), f.group(2) or "", f.group(3) or ""))
+        if line.startswith("SUMMARY:"):
+            cur = None
+    out = []
+    for r in reports:
+        in_repo = next((fr for fr in r["frames"] if "/repo/" in fr[1]), None)
+        r["in_repo"] = in_repo
+        r["key"] = f"{r['kind']}|{in_repo[0] if in_repo else (r['frames'][0][0] if r['frames'] else '?')}"
+        out.append(r)
+    return out
+
+
+def run_sanitized(binary, flavour, source, workdir, args=(), threads=4, timeout=900):
+    os.makedirs(workdir, exist_ok=True)
+    log = os.path.join(workdir, f"{flavour}.log")
+    extra = {}
+    if flavour == "tsan":
+        extra["TSAN_OPTIONS"] = f"halt_on_error=0 log_path={log} second_deadlock_stack=1 history_size=4"
+    else:
+        extra["ASAN_OPTIONS"] = f"halt_on_error=1 abort_on_error=0 detect_leaks=0 log_path={log}"
+    r, out, cmd = common.compile_font(binary, source, workdir, args=args, threads=threads, timeout=timeout, extra=extra)
+    text = ""
+    for f in os.listdir(workdir):
+        if f.startswith(f"{flavour}.log"):
+            text += open(os.path.join(workdir, f), errors="replace").read()
+    return r, parse_reports(text + "\n" + (r.stderr or "")), cmd
+
+
+def sweep(chk, flavour, sources, option_sets, thread_counts, sig_prefix):
+    """Run the sanitized CLI over sources x options x thread counts; violations for reports with a frame in /repo."""
+    info = {"flavour": flavour, "runs": 0, "reports": 0, "reports_in_repo": 0, "distinct_reports": [], "inconclusive": 0}
+    try:
+        bins = build(flavour)
+    except (common.Inconclusive, subprocess.TimeoutExpired) as e:
+        info["status"] = f"not run: {e}"
+        chk.inconc({"why": f"{flavour} flavour could not be built"})
+        return info
+    jobs = []
+    k = 0
+    for s in sources:
+        for opts in option_sets:
+            for t in thread_counts:
+                jobs.append((k, s, opts, t))
+                k += 1
+    seen = {}
+
+    def one(job):
+        k, s, opts, t = job
+        wd = os.path.join(chk.scratch, f"{flavour}{k}")
+        r, reports, cmd = run_sanitized(bins["fontc"], flavour, s, wd, args=opts, threads=t)
+        return job, r, reports, cmd, wd
+
+    for job, r, reports, cmd, wd in common.pmap(one, jobs, workers=max(2, common.NCPU // 4)):
+        info["runs"] += 1
+        if r.timed_out:
+            info["inconclusive"] += 1
+            chk.inconc({"why": f"{flavour} run watchdog", "source": job[1]})
+        for rep in reports:
+            info["reports"] += 1
+            seen.setdefault(rep["key"], 0)
+            seen[rep["key"]] += 1
+            if rep["in_repo"]:
+                info["reports_in_repo"] += 1
+                chk.violation(f"{sig_prefix}:{flavour}:{rep['key']}", f"{rep['head']} at {rep['in_repo']} while compiling {job[1]} {list(job[2])} with {job[3]} threads",
+                              replay={"cmd": cmd, "flavour": flavour, "frames": rep["frames"][:12]})
+        import shutil
+        shutil.rmtree(wd, ignore_errors=True)
+    info["distinct_reports"] = sorted(seen.items())[:20]
+    info["status"] = "ran"
+    return info
 
 
 def c02_sanitizers(chk):
-    return {"status": "not built yet in this round"}
+    """ThreadSanitizer over a corpus slice x thread counts: data races / lock-order inversions in the scheduler and contexts."""
+    rng = chk.rng
+    corpus = common.corpus()
+    pick = rng.sample(corpus, min(len(corpus), 36))
+    sources = [common.corpus_path(p) for p in pick]
+    out = {"tsan": sweep(chk, "tsan", sources, [(), ("--emit-ir",)], [3, 8, 16], "c02")}
+    out["miri"] = c02_miri(chk)
+    return out
+
+
+# ----------------------------------------------------------------------------------------------- Miri
+MIRI_FLAGS = "-Zmiri-disable-isolation -Zmiri-tree-borrows -Zmiri-ignore-leaks"
+MIRI_ERR = re.compile(r"^error(?:\[[A-Z0-9]+\])?: (.*)$", re.M)
+
+
+def miri_run(bin_name, args, seed=0, env=None, timeout=3600, cwd=None):
+    """`cargo +nightly miri run` of a harness binary.  Returns (status, detail): status in
+    ok / ub (Miri reported undefined behaviour, a data race or a deadlock) / program-failed / unsupported / watchdog."""
+    common.ensure_lockfile()
+    e = common.base_env()
+    e["RUSTFLAGS"] = "--cfg fontc_verif"
+    e["CARGO_TARGET_DIR"] = os.path.join(common.TARGET, "miri")
+    fwd = ""
+    for k, v in (env or {}).items():
+        e[k] = v
+        fwd += f" -Zmiri-env-forward={k}"
+    e["MIRIFLAGS"] = f"{MIRI_FLAGS} -Zmiri-seed={seed}{fwd}"
+    cmd = ["cargo", "+nightly", "miri", "run", "--offline", "-p", "vharness", "--bin", bin_name, "--"] + list(args)
+    try:
+        p = subprocess.run(cmd, cwd=cwd or common.HARNESS, env=e, stdout=subprocess.PIPE, stderr=subprocess.PIPE, text=True, timeout=timeout)
+    except subprocess.TimeoutExpired:
+        return "watchdog", ""
+    errs = [m for m in MIRI_ERR.findall(p.stderr) if not m.startswith("process didn't exit successfully")]
+    if any("unsupported operation" in x for x in errs):
+        return "unsupported", errs[0][:300]
+    bad = [x for x in errs if any(w in x for w in ("Undefined Behavior", "Data race", "data race", "deadlock", "memory leaked", "abnormal termination"))]
+    if bad:
+        # keep the first in-repo location for the signature
+        loc = re.search(r"-->\s+(/repo/[^\s:]+:\d+)", p.stderr)
+        return "ub", (bad[0][:300] + (" at " + loc.group(1) if loc else ""))
+    if p.returncode != 0:
+        return "program-failed", (p.stderr[-400:])
+    return "ok", ""
+
+
+def c02_miri(chk, seeds=8):
+    """A whole compile of a micro variable font (3 glyphs, 2 masters, kerning, 3 worker threads) inside Miri's
+    interpreter, one run per scheduler seed: data races, deadlocks and UB in the scheduler / contexts / unsafe code."""
+    import random
+    import sys
+    sys.path.insert(0, common.ROOT)
+    from gen import model as M, ufo
+    rng = random.Random(f"c02miri:{chk.seed}")
+    m = M.build(rng, family="micro", n_axes=1, layout="onaxis", n_glyphs=3, composites=0.5, curves="lines", explicit_metrics=False, instances=1, mapped=0.0)
+    M.add_kerning(m, rng, pairs=3)
+    src = ufo.render(m, os.path.join(chk.scratch, "micro"))
+    info = {"runs": 0, "ok": 0, "unsupported": 0, "watchdog": 0, "status": "ran"}
+
+    def one(seed):
+        out = os.path.join(chk.scratch, f"miri-{seed}.ttf")
+        st, detail = miri_run("vapi", ["c20", "lib", src, out], seed=seed, env={"RAYON_NUM_THREADS": "3"}, timeout=2400)
+        return seed, st, detail, os.path.exists(out)
+
+    # the first run compiles the harness for Miri; run it alone so the others do not wait on the build lock
+    results = [one(0)] + common.pmap(one, list(range(1, seeds)), workers=min(seeds, common.NCPU))
+    for seed, st, detail, made in results:
+        info["runs"] += 1
+        if st == "ok" and made:
+            info["ok"] += 1
+        elif st == "ub":
+            chk.violation("c02:miri:" + re.sub(r"\d+", "N", detail)[:80], f"Miri (seed {seed}) while compiling a micro font with 3 workers: {detail}", replay={"miri_seed": seed, "source": src})
+        elif st in ("unsupported", "watchdog"):
+            info[st] += 1
+            chk.inconc({"why": f"miri {st}", "detail": detail[:200]})
+        else:
+            chk.inconc({"why": f"miri run {st}", "detail": detail[:200]})
+    return info
